@@ -8,9 +8,20 @@ COMMON_ASSUME = [
 
 MODELS = {
     "MC_Pec": {"tla": "MC_Pec.tla", "cfg": "MC_Pec.cfg"},
+    "MC_Codec": {"tla": "MC_Codec.tla", "cfg": "MC_Codec.cfg"},
+    "MC_Decode": {"tla": "MC_Decode.tla", "cfg": "MC_Decode.cfg", "cfg_thorough": "MC_Decode_full.cfg"},
+    "MC_Layout": {"tla": "MC_Layout.tla", "cfg": "MC_Layout.cfg", "cfg_thorough": "MC_Layout_full.cfg"},
+    "MC_Endpoint": {"tla": "MC_Endpoint.tla", "cfg": "MC_Endpoint.cfg", "cfg_thorough": "MC_Endpoint_two.cfg"},
 }
 
-GEN = {}
+# spec -> impl scenario generators (TLC prints behaviours, the harness executes them)
+GEN = {
+    "GenEndpoint": {"tla": "GenEndpoint.tla", "cfg": "GenEndpoint.cfg"},
+    "GenEndpointSim": {"tla": "GenEndpoint.tla", "cfg": "GenEndpoint_sim.cfg", "simulate_quick": "num=12", "depth": 50,
+                       "simulate_thorough": "num=150"},
+    "GenDecode": {"tla": "GenDecode.tla", "cfg": "GenDecode.cfg"},
+    "GenDecodeFull": {"tla": "GenDecode.tla", "cfg": "GenDecode_full.cfg"},
+}
 
 PLAN = {}
 
@@ -23,58 +34,58 @@ def P(prop, level, rule, **kw):
 
 P("C01", "model_checking",
   "non-trivial = a decode_packet/process_packet call on exactly the bytes the immediately preceding encoder call produced; distinct = distinct (context, packet bytes)",
-  families=["requests", "responses", "vendor", "lengths"])
+  models=["MC_Codec"], families=["requests", "responses", "vendor", "lengths"])
 P("C02", "model_checking",
   "non-trivial = decode/process of a byte string whose last byte is not the PEC of the rest (every <=8-bit burst of every corpus packet, wrong PEC bytes, random strings); distinct = distinct (context, input bytes)",
-  models=["MC_Pec"], families=["corrupt"])
+  models=["MC_Pec", "MC_Decode", "MC_Endpoint"], gen=["GenEndpoint"], families=["corrupt"])
 P("C03", "model_checking",
   "non-trivial = an encoder call that returned Ok (PEC of the output recomputed by the spec); distinct = distinct encoder arguments",
-  models=["MC_Pec"], families=["lengths", "requests", "responses", "vendor"])
+  models=["MC_Pec", "MC_Codec"], families=["lengths", "requests", "responses", "vendor"])
 P("C04", "model_checking",
   "non-trivial = an encoder call with 7-bit source/destination that returned Ok or whose message does not fit; distinct = distinct arguments",
-  families=["lengths", "requests", "responses", "vendor"])
+  models=["MC_Codec"], families=["lengths", "requests", "responses", "vendor"])
 P("C05", "model_checking",
   "non-trivial = an encoder call that returned Ok; distinct = distinct (context address, arguments)",
-  families=["hdr_sweep", "requests", "responses", "vendor"])
+  models=["MC_Codec"], families=["hdr_sweep", "requests", "responses", "vendor"])
 P("C06", "model_checking",
   "non-trivial = a control request encoder call that returned Ok; distinct = distinct (encoder, arguments)",
-  families=["requests"])
+  models=["MC_Codec"], families=["requests"])
 P("C07", "model_checking",
   "non-trivial = a control response encoder call that returned Ok; distinct = distinct (encoder, arguments, stored EID)",
-  families=["responses"])
+  models=["MC_Codec"], families=["responses"])
 P("C08", "model_checking",
   "non-trivial = a vendor_defined / generate_{pci,iana,spdm}_msg_packet_bytes call; distinct = distinct arguments",
-  families=["vendor", "lengths"])
+  models=["MC_Codec"], families=["vendor", "lengths"])
 P("C09", "model_checking",
   "non-trivial = decode_packet on an input inside C09's claim (not too short, not a response to Get EID / Allocate EIDs / Routing Update); distinct = distinct (context, bytes)",
-  families=["mutate", "robust"])
+  models=["MC_Decode", "MC_Endpoint"], gen_quick=["GenDecode"], gen_thorough=["GenDecodeFull"], families=["mutate", "robust"])
 P("C10", "exploration",
   "every decode_packet / get_length / process_packet call is an evaluation (panic trapped as data); distinct = distinct (op, context, input bytes)",
-  families=["robust", "mutate", "corrupt"])
+  models=["MC_Decode", "MC_Endpoint"], gen_quick=["GenDecode"], gen_thorough=["GenDecodeFull"], families=["robust", "mutate", "corrupt"])
 P("C11", "model_checking",
   "non-trivial = a process_packet call where both decode_packet and process_packet returned; distinct = distinct (context, bytes, buffer size)",
-  families=["forge", "robust", "corrupt"])
+  models=["MC_Endpoint"], gen=["GenEndpoint", "GenEndpointSim"], families=["forge", "robust", "corrupt"])
 P("C12", "model_checking",
   "non-trivial = process_packet on an accepted control request in C12's domain (answerable command, source address = source EID < 0x80, D = 0); distinct = distinct (context, request bytes)",
-  families=["forge", "vendor_enum", "identity", "history"])
+  models=["MC_Endpoint"], gen=["GenEndpoint", "GenEndpointSim"], families=["forge", "vendor_enum", "identity", "history"])
 P("C13", "model_checking",
   "non-trivial = a processed Set/Get Endpoint ID packet (accepted, rejected or corrupted) or a direct accessor call; every event with a context is an evaluation of 'nothing else changes it'; distinct = distinct (context, input)",
-  families=["history", "forge", "corrupt"])
+  models=["MC_Endpoint"], gen=["GenEndpoint", "GenEndpointSim"], families=["history", "forge", "corrupt"])
 P("C14", "model_checking",
   "non-trivial = process_packet on an accepted Get Vendor Defined Message Support request with selector < n; distinct = distinct (configuration, request)",
-  families=["vendor_enum", "forge"])
+  models=["MC_Endpoint"], gen=["GenEndpoint", "GenEndpointSim"], families=["vendor_enum", "forge"])
 P("C15", "model_checking",
   "non-trivial = process_packet on an accepted Get UUID / Get Version / Get Message Type Support request; distinct = distinct (configuration, UUID history, request)",
-  families=["identity", "forge"])
+  models=["MC_Endpoint"], gen=["GenEndpoint", "GenEndpointSim"], families=["identity", "forge"])
 P("C16", "model_checking",
   "every encoder call is an evaluation (refusal table, exact write extent via poisoned buffers, independence from capacity/poison via repeated calls); distinct = distinct (arguments, capacity, poison)",
-  families=["requests", "responses", "vendor", "lengths"])
+  models=["MC_Codec"], families=["requests", "responses", "vendor", "lengths"])
 P("C17", "model_checking",
   "non-trivial = a get_length call or a batch of 256 x K calls sharing bytes 1-2; distinct = distinct inputs / (b1,b2) batches",
-  families=["probe"], exhaustive_thorough=True)
+  models=["MC_Decode"], families=["probe"], exhaustive_thorough=True)
 P("C18", "exploration",
   "every getter / setter / constructor / validator call on a header view is an evaluation; distinct = distinct (view, raw, field, value)",
-  families=["headers"])
+  models=["MC_Layout"], families=["headers"])
 P("C19", "model_checking",
   "every From<u8> conversion of all 256 bytes for command codes and message types and 0-5 for completion codes; distinct = distinct (enum, byte)",
-  families=["conv"], exhaustive_quick=True, exhaustive_thorough=True)
+  models=["MC_Layout"], families=["conv"], exhaustive_quick=True, exhaustive_thorough=True)
